@@ -136,6 +136,10 @@ M: List[Tuple[str, str, str, str, str]] = [
      "                else self.choice.port or DEFAULT_HTTPS_PORT", "                else self.choice.port or DEFAULT_HTTP_PORT"),
     ('c12-https-upstream-not-wrapped', 'C12', 'proxy/http/server/reverse.py',
      "                    if self.choice.scheme == HTTPS_PROTO:", "                    if self.choice.scheme == HTTPS_PROTO and self.choice.port:"),
+    ('c10-revert-web-undecodable-fix', 'C10', 'proxy/http/server/web.py',
+     "text_(self.request.header(b'user-agent'), errors='replace')", "text_(self.request.header(b'user-agent'))"),
+    ('c10-revert-threaded-flush-oserror', 'C10', 'proxy/http/handler.py',
+     "        except OSError:\n            # Client is gone (reset, broken pipe, ...).", "        except BrokenPipeError:\n            # Client is gone (reset, broken pipe, ...)."),
     # ---- C14 ---------------------------------------------------------------
     ('c14-default-port-8080', 'C14', 'proxy/http/parser/parser.py',
      "                    if self._url.port is not None else DEFAULT_HTTP_PORT",
